@@ -2415,6 +2415,9 @@ void install_termination_handlers() {
 #ifdef SIGQUIT
     install(SIGQUIT);
 #endif
+    // A peer or control client that hangs up while the daemon is writing to it must not take the daemon down:
+    // the failed send() reports the closed connection.
+    std::signal(SIGPIPE, SIG_IGN);
 #endif
 }
 
